@@ -15,7 +15,7 @@ import tempfile
 
 import numpy as np
 
-from vlib.engine import CaseViolation, Inconclusive, repo_root
+from vlib.engine import CaseViolation, Inconclusive, repo_root, child_python
 from vlib.util import check
 
 PROP = 'C07'
@@ -34,7 +34,7 @@ RULE = ('cases: seeded model configurations (plain / grid / continuous world, wr
         'of different seeds of one configuration differ. Non-trivial: trajectory with >=20 random picks/shuffles whose digest was '
         'compared under >=8 perturbations; distinct by (configuration, seed).')
 ASSUMPTIONS = ['"for all seeds / hash seeds / process counts" is sampled', 'the fixture draws all of its own randomness from model.random']
-FLOORS = {'quick': {'recycled_worlds_with_earlier_draws': 129, 'recycled_world_comparisons': 160, 'batch_runs_open_signature_model': 8, 'digests_compared': 280, 'trajectories': 24, 'watched_calls': 20000, 'global_reseeds': 5000, 'interleaved_other_models': 500,
+FLOORS = {'quick': {'deep_copied_models_compared': 160, 'recycled_worlds_with_earlier_draws': 129, 'recycled_world_comparisons': 160, 'batch_runs_open_signature_model': 8, 'digests_compared': 280, 'trajectories': 24, 'watched_calls': 20000, 'global_reseeds': 5000, 'interleaved_other_models': 500,
                     'fresh_interpreter_digests': 96, 'batch_worker_digests': 72, 'distinct_seed_pairs_differ': 30, 'big_configurations': 2, 'seed_zero_trajectories': 6,
                     'hash_seeds_used': 4, 'reach:Core.Environment.get_random_agent': 14000, 'reach:Core.Environment.shuffle': 8600},
           'thorough': {'digests_compared': 6000, 'trajectories': 500, 'watched_calls': 400000}}
@@ -91,7 +91,7 @@ def child_digests(jobs, hashseed):
             json.dump(jobs, f)
         env = dict(os.environ, VERIF_REPO=repo_root(), PYTHONDONTWRITEBYTECODE='1', PYTHONHASHSEED=str(hashseed))
         try:
-            r = subprocess.run([sys.executable, '-B', os.path.join(here, 'vlib', 'fixtures', 'trace_child.py'), path], capture_output=True,
+            r = subprocess.run(child_python() + [os.path.join(here, 'vlib', 'fixtures', 'trace_child.py'), path], capture_output=True,
                                text=True, timeout=240, env=env, cwd=here)
         except subprocess.TimeoutExpired:
             raise Inconclusive('fresh-interpreter trajectory run timed out')
@@ -246,6 +246,18 @@ def case_recycled(ctx, case):
                                 seed=seed_b, recycled=got[:4], fresh=exp[:4])
         if a_model.random.getstate() != a_state:
             raise CaseViolation('random picks in a world that now belongs to model B advanced the generator of its former model A', world=kind)
+        # a deep copy of a model is a model of its own: stepping / drawing in the copy leaves the original's generator alone, and both
+        # make the draws an undisturbed model with that seed makes
+        import copy as _copy
+        b_copy = _copy.deepcopy(b_model)
+        state_b = b_model.random.getstate()
+        twin_copy = _copy.deepcopy(twin)
+        got_c = draws(b_copy.environment, k)
+        ctx.count('deep_copied_models_compared')
+        if b_model.random.getstate() != state_b:
+            raise CaseViolation('random picks in a deep copy of a model advanced the generator of the original model', world=kind, seed=seed_b)
+        if got_c != draws(twin_copy.environment, k) or draws(w, k) != draws(tw, k):
+            raise CaseViolation('a model and a deep copy of it do not both continue with the draws their seed prescribes', world=kind, seed=seed_b)
     ctx.distinct(('recycled', case['i']))
 
 
